@@ -95,10 +95,11 @@ def api_defaults():
 # "*" variants take an lvalue, not an address
 IGNORED_CALLS = {"cmm_annotate_mem_acquire", "cmm_annotate_mem_release", "cmm_annotate_group_mem_acquire",
                  "cmm_annotate_group_mem_release", "cmm_annotate_group_mb_acquire", "cmm_annotate_group_mb_release",
-                 "cmm_emit_legacy_smp_mb", "cmm_smp_mb__before_uatomic_add", "cmm_smp_mb__after_uatomic_add",
-                 "cmm_smp_mb__before_uatomic_dec", "cmm_smp_mb__after_uatomic_dec", "cmm_smp_read_barrier_depends",
+                 "cmm_smp_read_barrier_depends",
                  "cmm_annotate_define", "urcu_posix_assert"}
-IDENTITY_CALLS = {"caa_likely", "caa_unlikely"}
+# value-preserving wrappers: branch hints, and the by-value transparent-union casts of wfcqueue.h (`{ ._h = head }`)
+IDENTITY_CALLS = {"caa_likely", "caa_unlikely", "__cds_wfcq_head_cast", "cds_wfcq_head_cast",
+                  "__cds_wfcq_head_const_cast", "cds_wfcq_head_const_cast"}
 ASSERT_CALLS = {"urcu_assert_debug"}
 MO_NAMES = {"CMM_RELAXED", "CMM_CONSUME", "CMM_ACQUIRE", "CMM_RELEASE", "CMM_ACQ_REL", "CMM_SEQ_CST", "CMM_SEQ_CST_FENCE"}
 TYPE_KW = {"unsigned", "signed", "long", "int", "char", "short", "void", "struct", "union", "enum", "const",
@@ -106,7 +107,8 @@ TYPE_KW = {"unsigned", "signed", "long", "int", "char", "short", "void", "struct
 
 
 # first members whose address is the address of the enclosing object (static-asserted by the generated C file)
-ZERO_FIELDS = {("struct cds_wfs_head", "node"), ("struct cds_lfs_head", "node")}
+ZERO_FIELDS = {("struct cds_wfs_head", "node"), ("struct cds_lfs_head", "node"),
+               ("struct __cds_wfcq_head", "node"), ("struct cds_wfcq_head", "node")}
 
 
 class Unsupported(Exception):
@@ -611,6 +613,16 @@ class Translator:
             if want_value:
                 raise Unsupported("value of %s" % name)
             return [], None
+        if name == "cmm_emit_legacy_smp_mb":
+            # urcu/arch.h: cmm_smp_mb() iff CONFIG_RCU_EMIT_LEGACY_MB; the configuration is a pseudo-global of the private view
+            if want_value:
+                raise Unsupported("value of %s" % name)
+            return ['.ifte (.pload (.addrGlob "CONFIG_RCU_EMIT_LEGACY_MB")) (.prim none .mb []) (.skip)'], None
+        if name.startswith("cmm_smp_mb__before_uatomic_") or name.startswith("cmm_smp_mb__after_uatomic_"):
+            # x86 and generic: cmm_barrier()
+            if want_value:
+                raise Unsupported("value of %s" % name)
+            return [".prim none .barrier []"], None
         if name in ASSERT_CALLS:
             p, v = self.rv(args[0])
             if p:
